@@ -149,6 +149,9 @@ type World struct {
 	stuckTerminated string
 	// ReloadGen produces the configuration for a Reload op (mutation of the current one); optional
 	ReloadGen func(t *rapid.T, w *World) string
+	// GroupTaint: groups whose tracked usage is not compared (listed known finding, see GroupUsageLostShape)
+	GroupTaint map[string]bool
+	AppTaint   map[string]bool
 }
 
 var worldMu sync.Mutex // one world at a time: the core has process wide singletons
